@@ -537,7 +537,24 @@ impl G {
         if !self.positive && self.r.chance(1, 3) {
             cond = json!({"t":"not","e":{"t":"par","e":cond}});
         }
-        json!({"cond":cond,"ids":ids})
+        let src = json!({"cond":cond,"ids":ids});
+        // half of the documents: every field present, then ONE field dropped - a row of the matrix
+        // that reads the dropped field is missing, the rows after it still decide
+        if self.r.chance(1, 2) {
+            let mut docs: Vec<J> = (0..3).map(|_| self.doc_for(&src)).collect();
+            for _ in 0..3 {
+                let mut d = self.doc_complete(&src);
+                if let Some(kv) = d.get_mut("kv").and_then(|k| k.as_array_mut()) {
+                    if kv.len() >= 2 {
+                        let i = self.r.below(kv.len());
+                        kv.remove(i);
+                    }
+                }
+                docs.push(d);
+            }
+            self.own_docs = Some(docs);
+        }
+        src
     }
 
     /// Shapes in which the optimiser regroups predicates on ONE field that differ in a flag:
@@ -550,7 +567,28 @@ impl G {
     pub fn flag_mix_source(&mut self) -> J {
         let ent = |m: &str, f: &str, v: J| json!({"m":m,"c":0,"f":cps(f),"v":v});
         let pat = |k: &str, ic: bool, a: &str| json!({"t":"pat","k":k,"ic":ic,"a":cps(a)});
-        match self.r.below(6) {
+        match self.r.below(7) {
+            // 6  `not (A and B)` / `not (B and A)` where A is one predicate and B a mapping with two or
+            //    three keys (an and-group that the optimiser flattens into the outer one): documents
+            //    leave A's field out and make a member of B false, and the other way round
+            6 => {
+                let nb = 2 + self.r.below(2);
+                let bf = ["g", "h", "n"];
+                let a = json!({"t":"map","es":[ent("none", "f", pat("exact", false, "x"))]});
+                let b = json!({"t":"map","es":(0..nb).map(|i| ent("none", bf[i], pat("exact", false, "x"))).collect::<Vec<_>>()});
+                let (l, r) = if self.r.chance(1, 2) { ("A", "B") } else { ("B", "A") };
+                let inner = json!({"t":"and","l":{"t":"id","n":cps(l)},"r":{"t":"id","n":cps(r)}});
+                let cond = if self.r.chance(3, 4) { json!({"t":"not","e":{"t":"par","e":inner}}) } else { inner };
+                let docs: Vec<J> = (0..6).map(|_| {
+                    let mut kv = vec![];
+                    for f in ["f", "g", "h", "n"].iter().take(nb + 1) {
+                        match self.r.below(3) { 0 => {} 1 => kv.push((f.to_string(), s_node("x"))), _ => kv.push((f.to_string(), s_node("y"))) }
+                    }
+                    obj(kv)
+                }).collect();
+                self.own_docs = Some(docs);
+                json!({"cond":cond,"ids":[[cps("A"), a], [cps("B"), b]]})
+            }
             // 5  a conjunction made ONLY of negations - a mapping whose keys are all not(k), or
             //    `not A and not B and not C` - over different fields; documents leave some fields out
             //    and give the others values that do not match (not missing = false, not false = true)
@@ -585,13 +623,16 @@ impl G {
                     vec![json!({"t":"star"}), c('a'), c('b')],
                     vec![c('A'), json!({"t":"star"})],
                     vec![json!({"t":"bol"}), c('b')],
+                    // `.*` next to its anchor must stay: `.` does not cross a line break
+                    vec![json!({"t":"bol"}), json!({"t":"star"}), c('a')],
+                    vec![c('b'), json!({"t":"star"}), json!({"t":"eol"})],
                 ];
                 let n = 2 + self.r.below(2);
                 let mut vs = vec![];
                 for _ in 0..n {
                     vs.push(json!({"t":"pat","k":"regex","ic":ic,"a":self.r.pick(&pool).clone()}));
                 }
-                let hay = ["a", "xa", "b..", "b", "xab", "Ay", "q", "ba"];
+                let hay = ["a", "xa", "b..", "b", "xab", "Ay", "q", "ba", "q\na", "b\nq", "q\nb\nq"];
                 self.own_docs = Some((0..5).map(|_| obj(vec![("f".into(), s_node(*self.r.pick(&hay)))])).collect());
                 if self.r.chance(1, 2) {
                     json!({"cond":{"t":"id","n":cps("A")},"ids":[[cps("A"),{"t":"map","es":[ent("none", "f", json!({"t":"list","vs":vs}))]}]]})
@@ -1360,6 +1401,12 @@ const PAT_CHARS: &[char] = &['i', '?', '>', '<', '=', '*', '\'', '"', 'a', 'A', 
 fn pat_soup(g: &mut G) -> String {
     // one in four: a NUMERIC pattern around the 64-bit boundaries (the comparison prefixes parse
     // the rest as i64, then as f64), with an optional case prefix, sign and trailing junk
+    if g.r.chance(1, 12) {
+        // comparisons written exactly AT the ends of the i64 range
+        return (*g.r.pick(&[">9223372036854775807", "<-9223372036854775808", ">=9223372036854775807", "<=-9223372036854775808",
+                            "i>9223372036854775807", "i<-9223372036854775808", "=9223372036854775808", ">9223372036854775806",
+                            "<-9223372036854775807", ">-9223372036854775808", "<9223372036854775807", "=-9223372036854775808"])).to_string();
+    }
     if g.r.chance(1, 4) {
         let pre = *g.r.pick(&["", "", "i", ">", ">=", "<", "<=", "=", "i>", "i<=", "?", "> ", ">-"]);
         let sign = *g.r.pick(&["", "", "-", "+"]);
